@@ -18,7 +18,9 @@ REGISTRY = {}
 OPEN = {
     "C01": ["C01_parse_sem: forall sty a, wf_media a -> parse_media (render_media sty a) = Ok (complete (sem_media a)) -- proved in layers (tokenizer, unquote, dispatch, assembly, integers, C06-C09); missing: per-tag interpretation lemmas and the float text conversions of EXTINF / DATERANGE durations"],
     "C02": ["C02_parse_sem: forall sty a, wf_master a -> parse_master (render_master sty a) = Ok (sem_master a) -- proved in layers (tokenizer, dispatch, source order, enums, integers); missing: per-tag interpretation lemmas, UFloat frame rates"],
-    "C03": ["C03_roundtrip: forall p from parse, parse_media (print_media p) = Ok p' with obs p' = obs p and print_media p' = print_media p -- proved: key-event duality (sets of keys per segment); missing: text of each tag read back (floats), byte-range/number/IV idempotence of build on printed text; FALSE as stated for key order (D20) and map keys (D9-K1): known findings"],
+    "C03": ["C03_parsed_built: forall s p, parse_media s = Ok p -> exists raws, built_ok p raws /\\ wf_media p up to the float/duration conditions -- not proved yet (numbers, explicit ranges, durations and key shapes of parse results are proved separately in C06-C09); C03_text_roundtrip is stated for well-formed built values and evaluated on a parsed example",
+            "dur_rt / float_rt: decidable hypotheses on the modelled std conversions (Duration -> f64 -> shortest decimal -> f64 -> Duration), part of wf_media; not theorems",
+            "byte-identical second serialisation and the order inside a key list: FALSE in general (known findings D20, D9-K1); keys are compared as sets"],
     "C04": ["ufloat_rt x (FRAME-RATE) / float_rt x (TIME-OFFSET) for every f32 with at most 3 decimals: C04_roundtrip holds for every parse result under this decidable hypothesis on the modelled std float conversions; the hypothesis itself is not a theorem (evaluated on examples, exercised by the correspondence check)"],
     "C05": ["C05_cost: cost_parse s <= c1*|s| + c2*|items s|*K s -- no cost model was built; time scaling is measured only (thorough tier)"],
     "C12": ["C12_restyle: forall sty1 sty2 a, wf a -> parse (render sty1 a) = parse (render sty2 a) -- corollary of the open C01/C02 statements; attribute order proved for 3 tags + generic theorem, not instantiated for all 12 attribute-list tags; header-tag and segment-tag order permutations not proved (sampled)"],
